@@ -48,6 +48,9 @@ Section Rules.
     Runs 1 EEoi a [] pos (Ok [] pos (if emits a then [Pair (g_eoi g) pos pos []] else [])).
   Proof. intros f Hf. destruct f as [|f]; [lia|]. reflexivity. Qed.
 
+  Lemma runs_eoi_fail a c rest pos : Runs 1 EEoi a (c :: rest) pos Fail.
+  Proof. intros f Hf. destruct f as [|f]; [lia|]. reflexivity. Qed.
+
   Lemma runs_skip_atomic s pos : Runs 1 ESkip AAtomic s pos (Ok s pos []).
   Proof. intros f Hf. destruct f as [|f]; [lia|]. reflexivity. Qed.
   Lemma runs_skip_compound s pos : Runs 1 ESkip ACompound s pos (Ok s pos []).
